@@ -271,7 +271,10 @@ impl<R: Round> Context<R> {
         // There will be about p/log_B(r) summations when calculating the series, to prevent
         // loss of significant, we needs about log_B(p) guard digits.
         let series_guard_digits = (self.precision.log2_est() / B.log2_est()) as usize + 2;
-        let pow_guard_digits = (self.precision.bit_len() as f32 * B.log2_est() * 2.) as usize; // heuristic
+        // here n is roughly equal to sqrt(self.precision)
+        let n = 1usize << (self.precision.bit_len() / 2);
+        // raising to the power Bⁿ amplifies the error of exp(r) by Bⁿ, i.e. it costs n digits
+        let pow_guard_digits = n + (self.precision.bit_len() as f32 * B.log2_est() * 2.) as usize; // heuristic
         let work_precision;
 
         // When minus_one is true and |x| < 1/B, the input is fed into the Maclaurin series without scaling
@@ -294,8 +297,6 @@ impl<R: Round> Context<R> {
             let logb = context.ln_base::<B>();
             let (s, r) = x.div_rem_euclid(logb);
 
-            // here m is roughly equal to sqrt(self.precision)
-            let n = 1usize << (self.precision.bit_len() / 2);
             let s: isize = s.try_into().expect("exponent is too large");
             (s, n, r)
         };
